@@ -33,7 +33,7 @@ static OUT_VEC_T source_at_nd(ND_SIZE_T x)
 #define COPY_IS_TARGET(G, t) MORTON_INTERLEAVED_V(G, t, vq1)
 #define COPY_IS_TARGET2(G, t) MORTON_INTERLEAVED_V(G, t, vq2)
 /* destination limited to 2^40 cells (the verifier's object-size limit; k*N <= 40) */
-#define COPY_PRE(sizes, t) (MORTON_INV(sizes) && verif_res_cells == verif_b_size && verif_ghost_k * DIMS_IN <= 40)
+#define COPY_PRE(sizes, t) (MORTON_INV(sizes) && verif_res_cells == verif_b_size && verif_res_cells <= ((size_t)1 << 40))
 #elif COPY_LAYER == 1
 #define WIDE_T size_t
 #define IN_SCALAR_T size_t
